@@ -58,7 +58,16 @@ Tags(r) ==
                                                                      d3 == Cross(Sub(q2, q1), Sub(p1, q1))  d4 == Cross(Sub(q2, q1), Sub(p2, q1))
                                                                  IN  ((d1 > 0 /\ d2 < 0) \/ (d1 < 0 /\ d2 > 0)) /\ ((d3 > 0 /\ d4 < 0) \/ (d3 < 0 /\ d4 > 0))
                                        IN  \A j \in 1..Len(P) : PC(a, b, P[Prev(P, j)], P[j]) => \E v \in allV : OnSeg(a, b, v) /\ OnSeg(P[Prev(P, j)], P[j], v)
-                   THEN {"through-shape:crossing-only-at-shape-vertices"} ELSE {"through-shape"})
+                   THEN \* the case decided by Router::newBlockingShape alone: both ends of the pierced segment are vertices of other shapes lying on the
+                        \* boundary of the pierced shape, and the pierced shape was added after those shapes
+                        (IF \A h \in hits : LET P == r.polys[h[2]]
+                                                OnBd(p) == \E j \in 1..Len(P) : OnSeg(P[Prev(P, j)], P[j], p)
+                                                Own(p) == {j \in DOMAIN r.polys : j # h[2] /\ \E v \in 1..Len(r.polys[j]) : r.polys[j][v] = p}
+                                            IN  /\ OnBd(rt[h[1]]) /\ OnBd(rt[h[1] + 1]) /\ Own(rt[h[1]]) # {} /\ Own(rt[h[1] + 1]) # {}
+                                                /\ \A j \in Own(rt[h[1]]) \cup Own(rt[h[1] + 1]) : j < h[2]
+                         THEN {"through-shape:crossing-only-at-shape-vertices:between-vertices-of-earlier-shapes-on-its-boundary"}
+                         ELSE {"through-shape:crossing-only-at-shape-vertices"})
+                   ELSE {"through-shape"})
 NonTrivial(r) == ~r.thrown /\ Len(r.disp) > 2
 VARIABLES k, phase, bad
 vars == <<k, phase, bad>>
